@@ -306,4 +306,30 @@ theorem verifier_lookup_none (vs : List Cose.Msg.Verifier) (kidv : Option Bytes)
   · intro h v hv he; exact h v hv (by simpa using he)
   · intro h v hv; simpa using h v hv
 
+/-- no registration has key type 0 — so a key whose `kty` member is missing, zero, null or not an integer (all read as 0)
+    reaches no implementation, whatever its curve and algorithm say: the key type is never inferred -/
+theorem registry_has_no_kty_zero : Tables.registry.all (fun r => r.kty != 0) = true := by decide +kernel
+
+theorem no_kty_no_implementation (kind : String) (k : Key) (h : kty k = 0) : registered kind (tripleKey k) = none := by
+  have hall := registry_has_no_kty_zero
+  have ht : (tripleKey k).1 = 0 := by
+    unfold tripleKey
+    simp only [h]
+    split
+    · split
+      · rename_i hh; simp at hh; exact absurd hh (by decide)
+      · split
+        · rename_i hh; simp at hh; exact absurd hh (by decide)
+        · rfl
+    · rfl
+  unfold registered
+  have : Tables.registry.find? (fun r => r.kind == kind && r.kty == (tripleKey k).1 && r.alg == (tripleKey k).2.1 && r.crv == (tripleKey k).2.2) = none := by
+    apply List.find?_eq_none.mpr
+    intro r hr
+    have hk : (r.kty != 0) = true := List.all_eq_true.mp hall r hr
+    rw [ht]
+    have : (r.kty == 0) = false := by simpa using hk
+    simp [this]
+  rw [this]
+
 end Cose.Props.C17
